@@ -3,18 +3,25 @@
    in rx (sub entries) / life-cycle inputs;  out tx dst es (ack entries);  idle, adv.
    The expected answer is computed from the inputs alone: matching by the tables of cfg
    (independent statement of the wildcard rule), running state from the life-cycle inputs,
-   listener decision by the rule the harness listener implements (cfg.rejectCtr).            *)
+   listener decision = field acc of the entry (the harness listener decides accordingly).  *)
 EXTENDS MonAnn
 
-MonInit(cfg) == LifeInit(cfg) @@ [pend |-> <<>>]   \* [dst, key, ttl (-1 = either), win, must]
+MonInit(cfg) == LifeInit(cfg) @@ GhostInit @@ [pend |-> <<>>]   \* [dst, key, ttl (-1 = either), win, must]
 W(m) == m.cfg.collect
 AckKey(en) == <<en.svc, en.eg, en.ctr>>
 
 Expect(m, src, en) ==
-  LET hit == {i \in Announced(m) : m.run[i] /\ SubMatches(m, i, en)} IN
+  LET hit == GHit(m, en)
+      ks  == {<<i, src, SubKey(en)>> : i \in hit}
+      \* a further Subscribe for a live subscription is a refresh: the listener is not asked again;
+      \* in the tick in which the subscription expires both outcomes are acceptable (see MonAnn)
+      liveNow == \E k \in ks : GLive(m, k) > 0
+      maybe   == \E k \in ks : GLive(m, k) < 0 \/ (GLive(m, k) = 0 /\ k \in m.exp)
+  IN
   IF en.ttl # 0
   THEN [dst |-> src, key |-> AckKey(en), win |-> W(m), must |-> TRUE,
-        ttl |-> IF m.cl THEN -1 ELSE IF hit # {} /\ ~Rejected(m, en) THEN en.ttl ELSE 0]
+        ttl |-> IF m.cl THEN -1 ELSE IF hit = {} THEN 0 ELSE IF en.acc \/ liveNow THEN en.ttl
+                ELSE IF maybe THEN -1 ELSE 0]
   ELSE [dst |-> src, key |-> AckKey(en), win |-> W(m), must |-> FALSE, ttl |-> 0]   \* StopSubscribe: no answer
                                                                                     \* required (a Nack for an unknown one is tolerated)
 RECURSIVE Entries(_, _, _)
@@ -22,8 +29,8 @@ Entries(m, src, es) ==
   IF es = <<>> THEN m
   ELSE LET en == Head(es)
            known == \E i \in Announced(m) : m.run[i] /\ SubMatches(m, i, en)
-       IN Entries(IF en.ty = "sub" /\ ~(en.ttl = 0 /\ known)
-                  THEN [m EXCEPT !.pend = Append(@, Expect(m, src, en))] ELSE m, src, Tail(es))
+       IN Entries(GEntry(IF en.ty = "sub" /\ ~(en.ttl = 0 /\ known)
+                         THEN [m EXCEPT !.pend = Append(@, Expect(m, src, en))] ELSE m, src, en), src, Tail(es))
 
 \* consume the pending answer matching this ack entry (mandatory ones first)
 Consume(m, dst, en) ==
@@ -47,12 +54,14 @@ Idle(m0) ==
 Adv(m, d) ==
   LET m1 == IF \E i \in DOMAIN m.pend : m.pend[i].must /\ m.pend[i].win < d THEN Fail(m, "subscribe_not_answered") ELSE m
       keep == SelectSeq(m1.pend, LAMBDA p : p.win >= d)
-  IN [m1 EXCEPT !.pend = [i \in DOMAIN keep |-> [keep[i] EXCEPT !.win = @ - d]]]
+  IN GAdv([m1 EXCEPT !.pend = [i \in DOMAIN keep |-> [keep[i] EXCEPT !.win = @ - d]]], d)
 
 MonStep(m0, e) ==
   LET m == [m0 EXCEPT !.n = @ + 1] IN
-  CASE e.k = "in" /\ e.op = "rx" -> IF e.uc /\ ~e.mc THEN Entries(m, e.src, e.es) ELSE m
-    [] e.k = "in" /\ e.op # "rx" -> Life(m, e)
+  CASE e.k = "in" /\ e.op = "rx" -> LET m2 == GReboot(m, e) IN IF e.uc /\ ~e.mc THEN Entries(m2, e.src, e.es) ELSE m2
+    [] e.k = "in" /\ e.op # "rx" ->
+         LET z == Stops(m, e)  m1 == GKill(Life(m, e), LAMBDA x : x[1] \in z)
+         IN IF e.op = "connlost" THEN GKill(m1, LAMBDA x : TRUE) ELSE m1
     [] e.k = "out" /\ e.op = "tx" -> Acks(m, e.dst, e.es)
     [] e.k = "out" /\ e.op = "cl_applied" -> IF e.comp = "ann" THEN Settled(m) ELSE m
     [] e.k = "idle" -> Idle(m)
